@@ -2,7 +2,7 @@ package main
 
 func init() {
 	register(&propDef{ID: "C05", Title: "Persisted FloatingIPs equal in-memory state; restart and crash safe",
-		Explanation: "Decides necessary conditions of store/memory agreement on every path of every IPAM mutator: (R1) each in-memory mutation (table write, syncCacheAfter*, Assign on a table-resident object; sites computed by the lockset engine as W-accesses of cacheLock state) is reachable only through the err==nil edge of a store call and unreachable from any err!=nil edge; (R2) the multi-IP allocator rolls created objects back in a loop, returns a non-nil error, inserts into memory only after all creates and creates nothing before 'not enough ips'; (R3) ConfigurePool lists the store with cacheLock held in W; (R4) the FloatingIPSpec/Attr fields written by assign are exactly those restored by ConfigurePool/unmarshalAttr; (R5) a failed decode or failed ConfigurePool leaves the remembered configuration untouched. (R12) Bind queues a release event only for a pod that no longer exists (NotFound), never for a Conflict answer of an already bound pod; (R13) from the success edge of every createFloatingIP no nil-error return is reachable without syncCacheAfterCreate. Does not decide crash-at-any-point + restart + resync behaviour, nor agreement after a failed second store call inside a per-IP loop beyond per-iteration ordering.",
+		Explanation: "Decides necessary conditions of store/memory agreement on every path of every IPAM mutator: (R1) each in-memory mutation (table write, syncCacheAfter*, Assign on a table-resident object; sites computed by the lockset engine as W-accesses of cacheLock state) is reachable only through the err==nil edge of a store call and unreachable from any err!=nil edge; (R2) the multi-IP allocator rolls created objects back in a loop, returns a non-nil error, inserts into memory only after all creates and creates nothing before 'not enough ips'; (R3) ConfigurePool lists the store with cacheLock held in W; (R4) the FloatingIPSpec/Attr fields written by assign are exactly those restored by ConfigurePool/unmarshalAttr; (R5) a failed decode or failed ConfigurePool leaves the remembered configuration untouched. (R12) Bind queues a release event only for a pod that no longer exists (NotFound), never for a Conflict answer of an already bound pod; (R13) from the success edge of every createFloatingIP no nil-error return is reachable without syncCacheAfterCreate. Does not decide crash-at-any-point + restart + resync behaviour, nor agreement after a failed second store call inside a per-IP loop beyond per-iteration ordering. (R15 = C04.R8) a reload attaches every stored ip to the pool whose ranges contain it, trying every pool before calling it unconfigured.",
 		Assumptions: []string{"paths are CFG paths (no feasibility reasoning)", "store = the generated FloatingIPInterface client reached through create/update/deleteFloatingIP"},
 		Run: func(c *Ctx) {
 			c.Rule("C05.R1", "store first, memory after, in every mutator (8 mutators)", 8)
@@ -27,6 +27,9 @@ func init() {
 			ruleReleaseEventsQueued(c, "C05.R12")
 			c.Rule("C05.R13", "a successful store create is always followed by the cache update", 1)
 			ruleCreateThenCache(c, "C05.R13")
+			c.Rule("C05.R15", "a restart attaches every stored ip to the pool whose ranges contain it", 1)
+			ruleReloadPoolMatch(c, "C05.R15")
+			ruleReloadDeletesOnlyForeign(c, "C05.R15")
 			c.Rule("C05.R14", "the object written to the store went through assign()", 2)
 			ruleStoreWritesAssigned(c, "C05.R14")
 			c.Rule("C05.R7", "an IP enters the allocated table only after the Create of that object succeeded (per object)", 1)
@@ -35,7 +38,7 @@ func init() {
 			ruleStoreErrorsPropagate(c, "C05.R8")
 		}})
 	register(&propDef{ID: "C08", Title: "Multi-IP requests get one IP per range, all or nothing",
-		Explanation: "Decides: (R1-R3 = C05.R2) rollback loop + non-nil error on a failed create, memory only after all creates, ErrNoEnoughIP unreachable after a create; (R4) a candidate is picked only if it is in the unallocated table, its pool lists the node subnet, and it was not chosen for an earlier range; (R5) in Bind the pod is bound only after allocateIP succeeded. (R9) the rollback loop reaches index 0 (ascending from 0 or descending while j >= 0), and a reload attaches a stored ip to the pool whose ranges contain it. Does not decide 'i-th IP in i-th range', result order, or partially pre-owned ranges (index arithmetic over runtime slices). (R10 = C04.R10) the UID refusal of allocateIP precedes every allocator call: a refused bind has allocated nothing. (R11) deleteFloatingIP has no return that does not pass the client's Delete and does not read the in-memory tables.",
+		Explanation: "Decides: (R1-R3 = C05.R2) rollback loop + non-nil error on a failed create, memory only after all creates, ErrNoEnoughIP unreachable after a create; (R4) a candidate is picked only if it is in the unallocated table, its pool lists the node subnet, and it was not chosen for an earlier range; (R5) in Bind the pod is bound only after allocateIP succeeded. (R9) the rollback loop reaches index 0 (ascending from 0 or descending while j >= 0), and a reload attaches a stored ip to the pool whose ranges contain it. Does not decide 'i-th IP in i-th range', result order, or partially pre-owned ranges (index arithmetic over runtime slices). (R10 = C04.R10) the UID refusal of allocateIP precedes every allocator call: a refused bind has allocated nothing. (R11) deleteFloatingIP has no return that does not pass the client's Delete and does not read the in-memory tables. (R12) on the requested-ranges side of getSubnet, a success return that does not go on to allocate returns a value that went through Intersection (helpers followed).",
 		Assumptions: []string{"paths are CFG paths"},
 		Run: func(c *Ctx) {
 			c.Rule("C08.R1", "multi-IP rollback / memory after all creates / nothing created before ErrNoEnoughIP", 1)
@@ -50,6 +53,8 @@ func init() {
 			ruleOnlyUnallocatedCreated(c, "C08.R7")
 			c.Rule("C08.R10", "a bind refused by the UID guard has allocated nothing", 2)
 			ruleUIDGuard(c, "C08.R10")
+			c.Rule("C08.R12", "with requested ranges an early answer is the intersection over all held ips", 1)
+			ruleEarlyExitIntersection(c, "C08.R12")
 			c.Rule("C08.R11", "the store delete primitive is unconditional (rollback deletes are never refused)", 1)
 			ruleStoreDeleteUnconditional(c, "C08.R11")
 			c.Rule("C08.R9", "the rollback covers the first created object; a reload attaches stored ips to the pool whose ranges contain them", 1)
@@ -59,7 +64,7 @@ func init() {
 			ruleBindAfterAllocate(c, "C08.R5")
 		}})
 	register(&propDef{ID: "C09", Title: "Reserved and de-configured IPs are never allocated; reload is lossless",
-		Explanation: "Decides: (R1) every object given to createFloatingIP is built by New from an entry read out of unallocatedFIPs (reserved objects live in allocatedFIPs, de-configured addresses in neither table); (R2 = C05.R3) the reload snapshot is taken inside the cacheLock critical section, so an allocation made while a reload is in progress is either in the snapshot or waits for the lock; (R3) the reservation watch handlers move only what they found, behind the reserved-label filter; (R4) reload queues for deletion only objects that no configured pool contains. (R11) a successful store create is always followed by the cache update, also when a reload replaced the tables in between. Does not decide 'drops exactly the others' as a set equality nor the reservation-vs-watch race beyond the store conflict (C01.R3).",
+		Explanation: "Decides: (R1) every object given to createFloatingIP is built by New from an entry read out of unallocatedFIPs (reserved objects live in allocatedFIPs, de-configured addresses in neither table); (R2 = C05.R3) the reload snapshot is taken inside the cacheLock critical section, so an allocation made while a reload is in progress is either in the snapshot or waits for the lock; (R3) the reservation watch handlers move only what they found, behind the reserved-label filter; (R4) reload queues for deletion only objects that no configured pool contains. (R11) a successful store create is always followed by the cache update, also when a reload replaced the tables in between. Does not decide 'drops exactly the others' as a set equality nor the reservation-vs-watch race beyond the store conflict (C01.R3). (R12) once one of FloatingIPs / allocatedFIPs / unallocatedFIPs has been assigned in ConfigurePool, no return is reachable before the other two are.",
 		Assumptions: []string{"paths are CFG paths"},
 		Run: func(c *Ctx) {
 			c.Rule("C09.R1", "only unallocated entries are created", 2)
@@ -77,6 +82,8 @@ func init() {
 			ruleReloadAllOrNothing(c, "C09.R9")
 			c.Rule("C09.R10", "table entries move only through the paired helpers (a reserved ip is not left in the free table)", 3)
 			ruleTablesOnlyThroughHelpers(c, "C09.R10")
+			c.Rule("C09.R12", "a reload publishes pools, allocated and unallocated table together", 3)
+			ruleReloadPublishesTogether(c, "C09.R12")
 			c.Rule("C09.R11", "a successful store create is always followed by the cache update (also when a reload ran in between)", 1)
 			ruleCreateThenCache(c, "C09.R11")
 			c.Rule("C09.R5", "a store Create conflict (IP reserved but not yet seen) is returned, never absorbed", 2)
